@@ -43,6 +43,8 @@ pub(crate) struct GrammarBuilder {
     next_nonterm_idx: NonTermIndex,
     next_prod_idx: ProdIndex,
     start_rule_name: String,
+    /// Names of the rules given in the grammar (helper rules excluded).
+    rule_names: BTreeSet<String>,
 }
 
 impl GrammarBuilder {
@@ -57,6 +59,7 @@ impl GrammarBuilder {
             next_nonterm_idx: NonTermIndex(0),
             next_prod_idx: ProdIndex(0),
             start_rule_name: "".into(),
+            rule_names: BTreeSet::new(),
         }
     }
 
@@ -168,6 +171,13 @@ impl GrammarBuilder {
         for mut terminal in grammar_terminals {
             let term_idx = self.get_term_idx();
             self.check_identifier(&terminal.name)?;
+            if self.terminals.contains_key(terminal.name.as_ref()) {
+                return err!(
+                    format!("Terminal '{}' is defined more than once.", &terminal.name),
+                    Some(self.file.clone()),
+                    terminal.name.span
+                );
+            }
             self.terminals.insert(
                 terminal.name.as_ref().to_string(),
                 Terminal {
@@ -247,8 +257,27 @@ impl GrammarBuilder {
             self.create_aug_nt_and_production("AUGL", layout_rule.name.as_ref());
         }
 
+        self.rule_names = rules
+            .iter()
+            .map(|r| r.name.as_ref().to_string())
+            .collect();
+
         for rule in rules {
             self.check_identifier(&rule.name)?;
+            if ["EMPTY", "AUG", "AUGL"].contains(&rule.name.as_ref().as_str()) {
+                return err!(
+                    format!("'{}' is a reserved name and can't be used for a rule.", &rule.name),
+                    Some(self.file.clone()),
+                    rule.name.span
+                );
+            }
+            if self.terminals.contains_key(rule.name.as_ref()) {
+                return err!(
+                    format!("'{}' is defined both as a rule and as a terminal.", &rule.name),
+                    Some(self.file.clone()),
+                    rule.name.span
+                );
+            }
             // Create new nonterm index if needed
             let nt_idx;
             if let Some(nonterminal) = self.nonterminals.get(rule.name.as_ref()) {
@@ -462,6 +491,35 @@ impl GrammarBuilder {
                     }
                 }
             };
+
+            // Rules created for the syntax sugar must not be confused with
+            // rules or terminals given in the grammar.
+            for helper_op in [
+                RepetitionOperatorOp::OneOrMore,
+                RepetitionOperatorOp::ZeroOrMore,
+                RepetitionOperatorOp::Optional,
+            ] {
+                let used = matches!(
+                    (&op.rep_op, &helper_op),
+                    (RepetitionOperatorOp::ZeroOrMore, RepetitionOperatorOp::OneOrMore)
+                ) || std::mem::discriminant(&op.rep_op)
+                    == std::mem::discriminant(&helper_op);
+                let helper_name = nt_name(&ref_type, &helper_op);
+                if used
+                    && (self.rule_names.contains(helper_name.as_ref())
+                        || self.terminals.contains_key(helper_name.as_ref()))
+                {
+                    return err!(
+                        format!(
+                            "The name '{}' is needed for the rule generated for a repetition of \
+                             '{}' but a rule or terminal of that name is defined in the grammar.",
+                            &helper_name, &ref_type
+                        ),
+                        Some(self.file.clone()),
+                        ref_type.span
+                    );
+                }
+            }
 
             match op.rep_op {
                 RepetitionOperatorOp::ZeroOrMore => {
